@@ -13,6 +13,7 @@ Require Import Zrs.model.FseDec Zrs.model.BlockDec Zrs.model.Matcher Zrs.model.S
 Require Import Zrs.proofs.C06_Drain Zrs.proofs.C17_Matcher Zrs.proofs.C17_Shape Zrs.proofs.C02_Glue Zrs.proofs.C02_FastBlock.
 Require Import Zrs.model.Headers Zrs.model.HufDec Zrs.proofs.C02_BlockGen Zrs.proofs.C02_FastGen.
 Require Import Zrs.model.FrameDec Zrs.model.LitEnc Zrs.proofs.C02_Roundtrip Zrs.proofs.C02_Concrete Zrs.proofs.C16_AnyMatcher.
+Require Import Zrs.model.LitComp Zrs.proofs.C02_Closed Zrs.proofs.C16_Closed.
 Open Scope Z_scope.
 
 (** any block encoder / matcher: the emitted block is the raw block unless the compressed body is strictly
@@ -155,6 +156,30 @@ Theorem C16_builtin_matcher_meets_the_contract : forall m data skip, DInv m -> (
       else exists seqs, out = Some seqs /\ apply_seqs H seqs = Some (H ++ data) /\ Forall (match_ok (max_window m)) seqs /\ block_shape seqs.
 Proof. exact builtin_meets_contract. Qed.
 
+(** ... and with the modelled literals part (model/LitComp.v; C02_literals_part_meets_O2) in the place of the parameter:
+    the matcher's contract is the only premise left *)
+Theorem C16_roundtrip_for_every_well_behaved_matcher_closed :
+  forall (M : Type) (mrun : M -> list Z -> bool -> res (M * option (list mseq))) (mreset : M -> M)
+         (MI : M -> Prop) (mret : M -> list Z) (mwin : M -> nat),
+  (forall m data skip, MI m -> (length data <= mwin m)%nat ->
+     exists m' out, mrun m data skip = ROk (m', out) /\ MI m' /\ mwin m' = mwin m /\
+       exists dropped H, mret m = dropped ++ H /\ mret m' = H ++ data /\
+         if skip then out = None
+         else exists seqs, out = Some seqs /\ apply_seqs H seqs = Some (H ++ data) /\ Forall (match_ok (mwin m)) seqs /\ block_shape seqs) ->
+  (forall m, MI m -> MI (mreset m) /\ mwin (mreset m) = mwin m /\ mret (mreset m) = []) ->
+  forall slice wsize hash32 cs data script frame cs' r',
+  UInit2 M MI mwin _ cs -> 1 <= Z.of_nat slice <= 131072 -> 1 <= wsize <= 2 ^ 27 ->
+  (forall h x, hash32 = Some h -> length (h x) = 4%nat) ->
+  compress_frame (ucst2 M (option codes_t)) (ublock2 M mrun _ litenc_model) (uskip2 M mrun _) (ufallback2 M _ None) (ureset2 M mreset _ None) LFastest slice wsize hash32 cs
+    {| rd_data := data; rd_script := script |} = ROk (frame, cs', r') ->
+  exists d1 rest evs s1 d2 s2,
+    fdec_reset fdec_new frame = ROk (d1, rest, evs) /\ fd_state d1 = Some s1 /\
+    fdec_decode_blocks d1 rest SAll = ROk (d2, [], true) /\ fd_state d2 = Some s2 /\
+    buf_content s2 = data /\
+    fr_checksum s2 = match hash32 with Some h => Some (le_val (h data)) | None => None end.
+Proof. exact any_matcher_roundtrip_closed. Qed.
+
+Print Assumptions C16_roundtrip_for_every_well_behaved_matcher_closed.
 Print Assumptions C16_roundtrip_for_every_well_behaved_matcher.
 Print Assumptions C16_builtin_matcher_meets_the_contract.
 Print Assumptions C16_any_valid_parse_block.
